@@ -70,7 +70,7 @@ PROPS = {
                        'pos_conv.span_roundtrip_inner_4', 'pos_conv.index_to_position_ref_5', 'pos_conv.roundtrip_inner_5'],
         rac=['lsp_glue'],
         unverified=[
-            'PROVED (unit pos_conv, desugarings R12/R13): index_to_position and span_to_range equal the reference for every text shorter than 2^31 characters, and positions grow strictly with the index. BOUNDED ONLY: position_to_index / range_to_span and the round trips (enumerate().filter_map().take().collect() + pop() code; Kani harnesses)',
+            'PROVED (unit pos_conv, desugarings R1/R12/R13): index_to_position and span_to_range equal the reference for every text shorter than 2^31 characters; positions grow strictly with the index; position_to_index / range_to_span invert them for every index on an LF-terminated line or in a text without LF. NOT covered by the proof: the final line of a text that contains LF (known finding D4: the function is wrong there)',
             'lint_to_code_actions / generate_code_actions (Url, HashMap, serde_json, Document): TextEdit construction and code-action lookup are not under contract',
             'texts longer than the bound, characters outside the 6-symbol alphabet',
         ],
